@@ -19,6 +19,93 @@ type parserInfo struct {
 	evsPrm  *ssa.Parameter
 	effects []ssa.Instruction
 	consume []ssa.Instruction
+	// a consumption made through a helper that removes exactly its count argument from the front of
+	// the buffer (`discardBytes(buf, n)`): the call site, with the count as seen by the parser
+	helperCount map[ssa.Instruction]ssa.Value
+}
+
+// consumeHelper: h removes exactly n bytes (its integer parameter) from the buffer that is its
+// *bytes.Buffer parameter and does nothing else — `buf.Next(n)`, or a loop counting n down to zero
+// around one ReadByte.  Returns the positions of the two parameters.
+func consumeHelper(h *ssa.Function) (int, int, bool) {
+	if h == nil || len(h.Blocks) == 0 {
+		return 0, 0, false
+	}
+	bufIdx, nIdx := -1, -1
+	for i, pa := range h.Params {
+		if typeName(pa.Type()) == "*bytes.Buffer" {
+			bufIdx = i
+		}
+		if bt, ok := pa.Type().Underlying().(*types.Basic); ok && bt.Kind() == types.Int {
+			nIdx = i
+		}
+	}
+	if bufIdx < 0 || nIdx < 0 {
+		return 0, 0, false
+	}
+	ok, reads := true, 0
+	eachInstr(h, func(in ssa.Instruction) {
+		switch x := in.(type) {
+		case *ssa.Store, *ssa.MapUpdate, *ssa.Send, *ssa.Go, *ssa.Defer, *ssa.Panic:
+			ok = false
+		case *ssa.Call:
+			name := calleeName(&x.Call)
+			switch {
+			case name == "(*bytes.Buffer).Next" && x.Call.Args[0] == ssa.Value(h.Params[bufIdx]) && x.Call.Args[1] == ssa.Value(h.Params[nIdx]):
+				// the whole count at once; must not sit in a loop
+				for _, body := range loopsOf(h) {
+					if body[x.Block()] {
+						ok = false
+					}
+				}
+				reads++
+			case name == "(*bytes.Buffer).ReadByte" && x.Call.Args[0] == ssa.Value(h.Params[bufIdx]):
+				// one byte per round of a loop whose counter starts at n, goes down by one, and runs while > 0
+				counted := false
+				for hd, body := range loopsOf(h) {
+					if !body[x.Block()] {
+						continue
+					}
+					for _, hin := range hd.Instrs {
+						phi, isPhi := hin.(*ssa.Phi)
+						if !isPhi || len(phi.Edges) != 2 {
+							continue
+						}
+						fromN, dec := false, false
+						for _, e := range phi.Edges {
+							if e == ssa.Value(h.Params[nIdx]) {
+								fromN = true
+							}
+							if bo, isBO := e.(*ssa.BinOp); isBO && bo.Op == token.SUB && bo.X == ssa.Value(phi) {
+								if k, isK := constInt(bo.Y); isK && k == 1 {
+									dec = true
+								}
+							}
+						}
+						if !fromN || !dec {
+							continue
+						}
+						if iff, isIf := hd.Instrs[len(hd.Instrs)-1].(*ssa.If); isIf && body[hd.Succs[0]] {
+							if cmp, isCmp := iff.Cond.(*ssa.BinOp); isCmp && cmp.Op == token.GTR && cmp.X == ssa.Value(phi) {
+								if k, isK := constInt(cmp.Y); isK && k == 0 {
+									counted = true
+								}
+							}
+						}
+					}
+				}
+				if !counted {
+					ok = false
+				}
+				reads++
+			default:
+				if _, isB := x.Call.Value.(*ssa.Builtin); !isB {
+					ok = false
+				}
+			}
+		}
+	})
+	return bufIdx, nIdx, ok && reads == 1
 }
 
 func inputParsers(p *Prog) []*parserInfo {
@@ -27,10 +114,20 @@ func inputParsers(p *Prog) []*parserInfo {
 		if fn.Pkg != p.Tcell || fn.Parent() != nil || !isParserSig(fn) || recvTypeName(fn) != "tcell.tScreen" {
 			continue
 		}
-		pi := &parserInfo{fn: fn, bufPrm: fn.Params[1], evsPrm: fn.Params[2]}
+		pi := &parserInfo{fn: fn, bufPrm: fn.Params[1], evsPrm: fn.Params[2], helperCount: map[ssa.Instruction]ssa.Value{}}
 		eachInstr(fn, func(in ssa.Instruction) {
 			if cc := callCommon(in); cc != nil {
 				n := calleeName(cc)
+				if h := cc.StaticCallee(); h != nil && h.Pkg == p.Tcell && len(h.Blocks) > 0 {
+					if bi, ni, isC := consumeHelper(h); isC && bi < len(cc.Args) && ni < len(cc.Args) && cc.Args[bi] == ssa.Value(pi.bufPrm) {
+						pi.effects = append(pi.effects, in)
+						pi.consume = append(pi.consume, in)
+						pi.helperCount[in] = cc.Args[ni]
+					} else if helperHasEffect(h, 2) {
+						// a helper that stores into the screen (or consumes) is a side effect of the parser
+						pi.effects = append(pi.effects, in)
+					}
+				}
 				if strings.HasPrefix(n, "(*bytes.Buffer).") && len(cc.Args) > 0 && cc.Args[0] == ssa.Value(pi.bufPrm) {
 					m := strings.TrimPrefix(n, "(*bytes.Buffer).")
 					switch m {
@@ -635,4 +732,30 @@ func testsIndicator(cond ssa.Value, ind map[ssa.Value]bool) bool {
 		}
 	}
 	return false
+}
+
+// helperHasEffect: h (or a module function it calls, to the given depth) stores into a screen field or
+// removes bytes from a buffer.
+func helperHasEffect(h *ssa.Function, depth int) bool {
+	found := false
+	eachInstr(h, func(in ssa.Instruction) {
+		if st, ok := in.(*ssa.Store); ok {
+			if ref, _, ok := fieldAddrRef(st.Addr); ok && ref.Owner == "tcell.tScreen" {
+				found = true
+			}
+		}
+		if cc := callCommon(in); cc != nil {
+			n := calleeName(cc)
+			if strings.HasPrefix(n, "(*bytes.Buffer).") {
+				switch strings.TrimPrefix(n, "(*bytes.Buffer).") {
+				case "ReadByte", "ReadBytes", "Next", "Read", "ReadRune", "ReadString", "Truncate", "Reset":
+					found = true
+				}
+			}
+			if g := cc.StaticCallee(); g != nil && g != h && g.Pkg == h.Pkg && len(g.Blocks) > 0 && depth > 0 && helperHasEffect(g, depth-1) {
+				found = true
+			}
+		}
+	})
+	return found
 }
